@@ -267,7 +267,7 @@ def emit():
     def g_revtypes(w):
         m = mod("swh.model.model")
         rt = str_enum(m.RevisionType, "RevisionType")
-        w("Definition REVISION_TYPES : list (list N * list N) := " + coq_list(f"({coq_bytes(n)}, {coq_bytes(v)})" for n, v in rt) + ".  (* " + " ".join(v for _, v in rt) + " *)")
+        w("Definition REVISION_TYPES : list (list N) := " + coq_list(coq_bytes(v) for _, v in rt) + ".  (* " + " ".join(v for _, v in rt) + " *)")
     group(["REVISION_TYPES"], g_revtypes)
 
     def g_emd_keys(w):
@@ -361,6 +361,142 @@ def emit():
         w("Definition MODEL_CLASSES : list (list N * list (list N * bool * bool * bool * bool)) := " +
           coq_list(f"({coq_bytes(c.__name__)}, FIELDS_{c.__name__})" for c in classes) + ".")
     group(["FIELDS_*", "MODEL_CLASSES"], g_fields)
+
+    # ---- model.py: per-field schema of the model classes (type, default, elided-when-None), enum/literal lists,
+    #      generic_type_validator flags (wanted by model/Codec.v, see coq/GeneratedSchemaWanted.md)
+    SCHEMA_CLASSES = ["Person", "Timestamp", "TimestampWithTimezone", "Origin", "OriginVisit", "OriginVisitStatus",
+                      "SnapshotBranch", "Snapshot", "Release", "Revision", "DirectoryEntry", "Directory", "Content",
+                      "SkippedContent", "MetadataAuthority", "MetadataFetcher", "RawExtrinsicMetadata", "ExtID"]
+
+    def type_code(t):
+        st = str(t).replace("typing.", "").replace("swh.model.model.", "").replace("swh.model.swhids.", "") \
+            .replace("swh.model.collections.", "").replace("datetime.datetime", "datetime")
+        return st.replace("<class '", "").replace("<enum '", "").replace("'>", "").replace(" ", "")
+
+    def wire_default(v):
+        if v is None:
+            return "N"
+        if v == b"" and isinstance(v, bytes):
+            return "b;"
+        if isinstance(v, int) and not isinstance(v, bool) and v == 0:
+            return "i0;"
+        if v == () and isinstance(v, tuple):
+            return "()"
+        if isinstance(v, str):
+            return "s" + "".join("%06x" % ord(ch) for ch in v) + ";"
+        raise Fail(f"default value {v!r} has no wire notation")
+
+    def class_node(tree, name):
+        for node in tree.body:
+            if isinstance(node, ast.ClassDef) and node.name == name:
+                return node
+        raise Fail(f"class {name} not found")
+
+    def elided_keys(tree, cls):
+        """keys deleted under an `is None` test by a to_dict of the class's MRO"""
+        keys = set()
+        for c in cls.__mro__:
+            if c.__module__ != "swh.model.model":
+                continue
+            node = class_node(tree, c.__name__)
+            for fn in node.body:
+                if isinstance(fn, ast.FunctionDef) and fn.name == "to_dict":
+                    loops = {}   # loop variable -> literal keys
+                    for st in ast.walk(fn):
+                        if isinstance(st, ast.For) and isinstance(st.target, ast.Name):
+                            try:
+                                loops[st.target.id] = str_collection(st.iter, "to_dict loop")
+                            except Fail:
+                                # a loop over a name bound to a literal tuple in the same function
+                                if isinstance(st.iter, ast.Name):
+                                    for a2 in ast.walk(fn):
+                                        if isinstance(a2, ast.Assign) and isinstance(a2.targets[0], ast.Name) and a2.targets[0].id == st.iter.id:
+                                            loops[st.target.id] = str_collection(a2.value, "to_dict loop tuple")
+                    for st in ast.walk(fn):
+                        if isinstance(st, ast.Delete):
+                            for tg in st.targets:
+                                if not isinstance(tg, ast.Subscript):
+                                    raise Fail(f"{c.__name__}.to_dict: unexpected del shape")
+                                k = tg.slice
+                                if isinstance(k, ast.Constant) and isinstance(k.value, str):
+                                    keys.add(k.value)
+                                elif isinstance(k, ast.Name) and k.id in loops:
+                                    keys.update(loops[k.id])
+                                else:
+                                    raise Fail(f"{c.__name__}.to_dict: unexpected del key")
+        return keys
+
+    def g_schema(w):
+        m = mod("swh.model.model")
+        tm = parse("swh/model/model.py")
+        w("(* swh/model/model.py: per-field schema (name, type, default in wire notation, elided-when-None) *)")
+        for cn in SCHEMA_CLASSES:
+            cls = getattr(m, cn, None)
+            if cls is None or not attr.has(cls):
+                raise Fail(f"model class {cn} not found")
+            el = elided_keys(tm, cls)
+            rows, comments = [], []
+            for a in attr.fields(cls):
+                d = None if a.default is attr.NOTHING else wire_default(a.default)
+                tc = type_code(a.type)
+                rows.append(f"({coq_bytes(a.name)}, {coq_bytes(tc)}, {'None' if d is None else 'Some ' + coq_bytes(d)}, {str(a.name in el).lower()})")
+                comments.append(f"{a.name}:{tc}:{'-' if d is None else d}:{'elided' if a.name in el else 'kept'}")
+            w(f"Definition SCHEMA_{cn} : list (list N * list N * option (list N) * bool) := " + coq_list(rows) + ".")
+            w("(* " + "  ".join(comments).replace("*)", "* )") + " *)")
+        w("Definition MODEL_SCHEMAS : list (list N * list (list N * list N * option (list N) * bool)) := " +
+          coq_list(f"({coq_bytes(cn)}, SCHEMA_{cn})" for cn in SCHEMA_CLASSES) + ".")
+    group(["SCHEMA_*", "MODEL_SCHEMAS"], g_schema)
+
+    def in_list(tree, cls, field):
+        """the literal list of attr.validators.in_([...]) of attr.ib `field` in class `cls`"""
+        node = class_node(tree, cls)
+        for st in node.body:
+            if isinstance(st, ast.Assign) and isinstance(st.targets[0], ast.Name) and st.targets[0].id == field:
+                for c in ast.walk(st.value):
+                    if isinstance(c, ast.Call) and isinstance(c.func, ast.Attribute) and c.func.attr == "in_" and c.args:
+                        arg = c.args[0]
+                        if isinstance(arg, ast.Name):
+                            v = top_assign(tree, arg.id)
+                            return str_collection(v, f"{cls}.{field} in_")
+                        return str_collection(arg, f"{cls}.{field} in_")
+        raise Fail(f"in_([...]) validator of {cls}.{field} not found")
+
+    def g_enums2(w):
+        m = mod("swh.model.model")
+        tm = parse("swh/model/model.py")
+        rtt = str_enum(m.ReleaseTargetType, "ReleaseTargetType")
+        w("Definition RELEASE_TARGET_TYPES : list (list N) := " + coq_list(coq_bytes(v) for _, v in rtt) + ".  (* " + " ".join(v for _, v in rtt) + " *)")
+        vs = in_list(tm, "OriginVisitStatus", "status")
+        w("Definition VISIT_STATUSES : list (list N) := " + coq_list(coq_bytes(v) for v in vs) + ".  (* " + " ".join(vs) + " *)")
+        de = in_list(tm, "DirectoryEntry", "type")
+        w("Definition DIR_ENTRY_TYPES : list (list N) := " + coq_list(coq_bytes(v) for v in de) + ".  (* " + " ".join(de) + " *)")
+        cs = in_list(tm, "Content", "status")
+        w("Definition CONTENT_STATUSES : list (list N) := " + coq_list(coq_bytes(v) for v in cs) + ".  (* " + " ".join(cs) + " *)")
+        bs_ = in_list(tm, "BaseContent", "status")
+        w("Definition BASE_CONTENT_STATUSES : list (list N) := " + coq_list(coq_bytes(v) for v in bs_) + ".  (* " + " ".join(bs_) + " *)")
+        sk = in_list(tm, "SkippedContent", "status")
+        w("Definition SKIPPED_CONTENT_STATUSES : list (list N) := " + coq_list(coq_bytes(v) for v in sk) + ".  (* " + " ".join(sk) + " *)")
+    group(["RELEASE_TARGET_TYPES", "VISIT_STATUSES", "DIR_ENTRY_TYPES", "CONTENT_STATUSES", "BASE_CONTENT_STATUSES", "SKIPPED_CONTENT_STATUSES"], g_enums2)
+
+    def g_generic(w):
+        m = mod("swh.model.model")
+        tm = parse("swh/model/model.py")
+        w("(* fields whose attr.ib carries validator=generic_type_validator (read from the class bodies, MRO order) *)")
+        for cn in SCHEMA_CLASSES:
+            cls = getattr(m, cn)
+            flagged = set()
+            for c in cls.__mro__:
+                if c.__module__ != "swh.model.model":
+                    continue
+                node = class_node(tm, c.__name__)
+                for st in node.body:
+                    if isinstance(st, ast.Assign) and isinstance(st.targets[0], ast.Name) and isinstance(st.value, ast.Call):
+                        for kw in st.value.keywords:
+                            if kw.arg == "validator" and any(isinstance(n, ast.Name) and n.id == "generic_type_validator" for n in ast.walk(kw.value)):
+                                flagged.add(st.targets[0].id)
+            names = [a.name for a in attr.fields(cls) if a.name in flagged]
+            w(f"Definition GENERIC_VALIDATED_{cn} : list (list N) := " + coq_list(coq_bytes(n) for n in names) + ".  (* " + " ".join(names) + " *)")
+    group(["GENERIC_VALIDATED_*"], g_generic)
     return "\n".join(L) + "\n", missing
 
 
